@@ -43,7 +43,7 @@ var c39Alphabet = []string{
 var c39AttrAlphabet = []string{
 	"a", "=", "\"", "'", " ", "/", ">", "<", "\n", "\x00", "&amp;", "b",
 }
-var c39AttrOpeners = []string{"<a ", "</a ", "<a", "<title ", "<script a", "<A\t"}
+var c39AttrOpeners = []string{"<a ", "</a ", "x<a", "<title ", "y<script a", "xy<A\t"}
 var c39AttrTails = []string{"", ">x", "\"'>x</a>"}
 
 type c39Case struct {
@@ -97,7 +97,8 @@ type c39Tok struct {
 
 type c39Run struct {
 	toks     []c39Tok
-	errRaw   string // Raw() of the final ErrorToken
+	vals     []string // Token() contents per token (callToken variants only)
+	errRaw   string   // Raw() of the final ErrorToken
 	buffered string
 	rest     string // left in the reader
 	err      error
@@ -163,8 +164,13 @@ func c39Tokenize(in []byte, v c39Variant) c39Run {
 		}
 		run.toks = append(run.toks, c39Tok{tt, string(z.Raw())})
 		if v.callToken {
-			_ = z.Token()
+			tk := z.Token()
 			_ = z.Token() // a second call must be harmless too
+			val := tk.Data
+			for _, a := range tk.Attr {
+				val += "\x01" + a.Key + "\x02" + a.Val
+			}
+			run.vals = append(run.vals, val)
 		}
 		if len(run.toks) > limit {
 			run.overrun = true
@@ -386,7 +392,7 @@ func trunc39(s string) string {
 
 // c39CheckInput runs every (context, cdata) base and its reader/Token()
 // variants on one input.
-func c39CheckInput(w *vx.W, in []byte, ctxs []string, full bool) {
+func c39CheckInput(w *vx.W, in []byte, ctxs []string, full, chunk7 bool) {
 	hasBang := bytes.Contains(in, []byte("<!"))
 	nonText := false
 	for _, ctx := range ctxs {
@@ -414,12 +420,17 @@ func c39CheckInput(w *vx.W, in []byte, ctxs []string, full bool) {
 				{ctx: ctx, cdata: cdata, chunk: 1, callToken: true},
 				{ctx: ctx, cdata: cdata, eofData: true, callToken: true},
 				{ctx: ctx, cdata: cdata, chunk: 3},
+				{ctx: ctx, cdata: cdata, chunk: 7, callToken: true},
 			}
 			if !full {
 				variants = []c39Variant{{ctx: ctx, cdata: cdata, callToken: true, smallBuf: true}}
+				if chunk7 {
+					variants = append(variants, c39Variant{ctx: ctx, cdata: cdata, chunk: 7, callToken: true})
+				}
 			} else if ctx == "" {
 				variants = append(variants, c39Variant{ctx: ctx, cdata: cdata, smallBuf: true})
 			}
+			var refVals []string
 			for _, v := range variants {
 				run := c39Tokenize(in, v)
 				c39CheckLossless(w, in, v, run)
@@ -429,6 +440,14 @@ func c39CheckInput(w *vx.W, in []byte, ctxs []string, full bool) {
 				if !c39SameToks(run.toks, ref.toks) {
 					w.Failf("C39/deterministic/tokens-depend-on-"+strings.NewReplacer("reader=", "", ",", "+").Replace(v.class()), "input %q ctx=%q cdata=%v: %s gives %s, plain reader gives %s", in, ctx, cdata, v.class(), trunc39(c39Show(run.toks)), trunc39(c39Show(ref.toks)))
 					return
+				}
+				if v.callToken {
+					if refVals == nil {
+						refVals = run.vals
+					} else if strings.Join(refVals, "\x00\x03") != strings.Join(run.vals, "\x00\x03") {
+						w.Failf("C39/deterministic/token-contents-depend-on-reader", "input %q ctx=%q cdata=%v: Token() data/attributes with %s are %q, with %s they are %q", in, ctx, cdata, v.class(), run.vals, variants[0].class(), refVals)
+						return
+					}
 				}
 			}
 		}
@@ -440,6 +459,9 @@ func c39CheckInput(w *vx.W, in []byte, ctxs []string, full bool) {
 
 func c39CheckMaxBuf(w *vx.W, in []byte, n int) {
 	ref := c39Tokenize(in, c39Variant{})
+	if c39CheckLossless(w, in, c39Variant{}, ref); w.Failed() {
+		return
+	}
 	longest := 0
 	for _, t := range ref.toks {
 		longest = max(longest, len(t.raw))
@@ -513,8 +535,8 @@ func c39CheckMaxBuf(w *vx.W, in []byte, n int) {
 func TestVerif_C39(t *testing.T) {
 	vx.Run(t, "C39", func(c *vx.Ctx) {
 		depth := vx.Pick(c, 4, 5)
-		c.Rule(fmt.Sprintf("soup: every concatenation of <= %d fragments of %q. Inputs of <= 3 fragments are tokenized with NewTokenizerFragment contexts {\"\", script, title, textarea, plaintext} x AllowCDATA off/on (on only if the input contains \"<!\") x readers {all-at-once, all-at-once with EOF alongside data + Token() twice per token, 1 byte per Read + Token(), 3 bytes per Read}; longer inputs with context \"\" x AllowCDATA off/on x readers {all-at-once, all-at-once into a white-box 4-byte initial buffer + Token()}. "+
-			"attrs: opener in %q + every sequence of <= %d fragments of %q + tail in %q (reaches quoted/unquoted attribute values), context \"\", same reader rule. "+
+		c.Rule(fmt.Sprintf("soup: every concatenation of <= %d fragments of %q. Inputs of <= 3 fragments are tokenized with NewTokenizerFragment contexts {\"\", script, title, textarea, plaintext} x AllowCDATA off/on (on only if the input contains \"<!\") x readers {all-at-once, all-at-once with EOF alongside data + Token() twice per token, 1 byte per Read + Token(), 3 bytes per Read, 7 bytes per Read + Token()}; longer inputs with context \"\" x AllowCDATA off/on x readers {all-at-once, all-at-once into a white-box 4-byte initial buffer + Token()}. "+
+			"attrs: opener in %q + every sequence of <= %d fragments of %q + tail in %q (reaches quoted/unquoted attribute values), context \"\", same reader rule plus 7 bytes per Read + Token() for every input. Token() data/attributes must agree between all Token()-calling variants. "+
 			"maxbuf: every soup input of <= %d fragments and every attrs input of <= 3 fragments with SetMaxBuf(n), n in {1,2,3,4,7,16}, readers {all, 1 byte + Token() + 4-byte initial buffer, EOF alongside data + 4-byte initial buffer}; maxbuf-long: <= %d soup fragments with a 9000/20000-byte filler (x…, spaces, '-', \"<a \" repeated) inserted at every position, n in {16, 5000}. non-trivial = at least one non-text token or a dropped tail (soup/attrs), ErrBufferExceeded reached (maxbuf)",
 			depth, c39Alphabet, c39AttrOpeners, vx.Pick(c, 4, 5), c39AttrAlphabet, c39AttrTails, vx.Pick(c, 3, 4), vx.Pick(c, 1, 2)))
 		c.Assume("inputs outside the enumerated fragment languages are not executed; non-termination inside a single Next call is caught only by the shard timeout (a livelock that keeps returning tokens is caught by the token-count bound); readers that fail with errors other than io.EOF are not modelled")
@@ -528,7 +550,7 @@ func TestVerif_C39(t *testing.T) {
 		vx.Enumerate(c, "soup", vx.Opts{}, func(yield func(c39Case) bool) {
 			vx.Strings(soupIdx, 0, 3, func(s []int) bool { return yield(c39Case{Idx: s}) })
 		}, func(w *vx.W, x c39Case) {
-			c39CheckInput(w, c39Join(c39Alphabet, x.Idx), allCtx, true)
+			c39CheckInput(w, c39Join(c39Alphabet, x.Idx), allCtx, true, false)
 		})
 
 		attrIn := func(x c39Case) []byte {
@@ -553,7 +575,7 @@ func TestVerif_C39(t *testing.T) {
 		vx.Enumerate(c, "attrs", vx.Opts{}, func(yield func(c39Case) bool) {
 			attrGen(vx.Pick(c, 4, 5), yield)
 		}, func(w *vx.W, x c39Case) {
-			c39CheckInput(w, attrIn(x), allCtx[:1], len(x.Idx) <= 3)
+			c39CheckInput(w, attrIn(x), allCtx[:1], len(x.Idx) <= 3, true)
 		})
 
 		limits := []int{1, 2, 3, 4, 7, 16}
@@ -615,7 +637,7 @@ func TestVerif_C39(t *testing.T) {
 		vx.Enumerate(c, "soup-deep", vx.Opts{}, func(yield func(c39Case) bool) {
 			vx.Strings(soupIdx, 4, depth, func(s []int) bool { return yield(c39Case{Idx: s}) })
 		}, func(w *vx.W, x c39Case) {
-			c39CheckInput(w, c39Join(c39Alphabet, x.Idx), allCtx[:1], false)
+			c39CheckInput(w, c39Join(c39Alphabet, x.Idx), allCtx[:1], false, false)
 		})
 	})
 }
